@@ -168,7 +168,7 @@ class GradientTape:
                 g = _grad_of_sum(tt, deps, s, "zero")
                 if any(l in deps for l in [_source_leaf(x) for x in sa.reshape(-1)]):
                     any_conn = True
-                out[tidx] = g.arr
+                out[tidx] = g.arr if g.arr.ndim else g.arr[()]
             if not any_conn and unconnected != "zero":
                 res.append(None)
             else:
